@@ -107,9 +107,9 @@ def make_header(ilines, xlines, samples, tracecount, hw_info, bits_per_voxel, bl
         n_il = len(geom.ilines)
         buffer[12:16] = int_to_bytes(n_il)
 
-        min_xl = np.int32(geom.min_xl) if unstructured else xlines[0]
+        min_xl = np.int32(geom.min_xl) if unstructured else xlines[geom.xlines[0]]   # First line of the window
         buffer[20:24] = np_float_to_bytes_signed(min_xl)
-        min_il = np.int32(geom.min_il) if unstructured else ilines[0]
+        min_il = np.int32(geom.min_il) if unstructured else ilines[geom.ilines[0]]
         buffer[24:28] = np_float_to_bytes_signed(min_il)
 
         if not unstructured:
@@ -214,7 +214,7 @@ def io_thread_func(blockshape, store_headers, headers_dict, geom, plane_set_id, 
                    seismic_buffer, seismicfile, minimal_il_reader, trace_length):
     for i in range(blockshape[0]):
         headers = []
-        start_trace = (plane_set_id * blockshape[0] + i) * len(seismicfile.xlines) + geom.xlines[0]
+        start_trace = (geom.ilines[0] + plane_set_id * blockshape[0] + i) * len(seismicfile.xlines) + geom.xlines[0]
         if i < planes_to_read:
             if minimal_il_reader is not None:
                 headers, seismic_buffer[i, 0:len(geom.xlines), 0:trace_length] \
